@@ -97,10 +97,13 @@ func c04Single(c *core.Ctx) {
 	okR, whyR := len(edges) >= 1, "an event with a wrong claimed frame can be accepted"
 	for _, e := range edges {
 		if o, _ := edgeLeadsOnlyTo(chk, e.B, e.Succ, func(r *ast.ReturnStmt) bool {
-			if len(r.Results) < 1 {
+			// the value given for the function's error result (identified by its type: it may be the
+			// first or the last result; a function returning only the error is the n == 1 case)
+			x, known := c07ReturnedErr(chk, r)
+			if !known {
 				return false
 			}
-			v, ok := chk.ObjOf(r.Results[0]).(*types.Var)
+			v, ok := chk.ObjOf(ast.Unparen(x)).(*types.Var)
 			return ok && p.ObjName(v) == "abft.ErrWrongFrame"
 		}); !o {
 			okR = false
